@@ -27,6 +27,10 @@ def one(seed, checks):
     if r.returncode != 0:
         return seed, None, "patch does not apply: " + r.stdout
     env = dict(os.environ, VERIF_REPO=repo, VERIF_TIER="quick")
+    r = sh([os.path.join(V, "check"), "--build"], cwd=V, env=env)
+    if r.returncode != 0:
+        return seed, None, "does not build: " + r.stdout[-500:]
+    env["VERIF_NOBUILD"] = "1"
     res = {}
     for c in checks:
         t0 = time.time()
@@ -39,6 +43,8 @@ def one(seed, checks):
         shutil.rmtree(p, ignore_errors=True)
     mf = os.path.join(d, "meta.json")
     m = json.load(open(mf))
+    if "matrix_quick" in m and os.environ.get("SEEDMATRIX_SKIP_DONE"):
+        pass
     m["matrix_quick"] = res
     m["matrix_caught_by"] = sorted(c for c, x in res.items() if x["rc"] == 1)
     m["matrix_inconclusive"] = sorted(c for c, x in res.items() if x["rc"] == 2)
@@ -51,7 +57,10 @@ def main():
     ap.add_argument("-j", type=int, default=3)
     ap.add_argument("seeds", nargs="*")
     a = ap.parse_args()
+    skip_done = bool(os.environ.get("SEEDMATRIX_SKIP_DONE"))
     seeds = a.seeds or sorted(os.path.basename(p) for p in glob.glob(os.path.join(V, "seeded", "*")) if os.path.exists(os.path.join(p, "patch.diff")))
+    if skip_done:
+        seeds = [s for s in seeds if "matrix_quick" not in json.load(open(os.path.join(V, "seeded", s, "meta.json")))]
     checks = sh([os.path.join(V, "check"), "--list"], cwd=V).stdout.split()
     with ThreadPoolExecutor(max_workers=a.j) as ex:
         for seed, caught, err in ex.map(lambda s: one(s, checks), seeds):
